@@ -51,6 +51,25 @@ func (fr *Frame) evalBool(sc *Scope, e Expr) Term {
 	return v.C[0]
 }
 
+// tryEvalBool evaluates a contract clause; a clause that cannot be evaluated against the current code any more
+// (it names a local, field or parameter that no longer exists where the clause applies) is an obligation that
+// fails - reported under its own name with the reason - not a tool error. ok is false then (nothing is assumed
+// from such a clause).
+func (fr *Frame) tryEvalBool(sc *Scope, e Expr, what string) (g Term, ok bool) {
+	defer func() {
+		if r := recover(); r != nil {
+			switch r.(type) {
+			case contractErr:
+				fr.top.note(fmt.Sprintf("%s cannot be evaluated against this code any more: %v", what, r))
+				g, ok = False, false
+			default:
+				panic(r)
+			}
+		}
+	}()
+	return fr.evalBool(sc, e), true
+}
+
 // coerce turns a constant into a value of the type of other.
 func (fr *Frame) coerce(c Val, other Val) Val {
 	if c.K == KCondConst {
